@@ -1,1 +1,501 @@
-//! Helpers of group 'integrity' (see GUIDE.md).
+//! Group 'integrity' (C15 C16 C18 C20 C21 C22 C26): a history runner that reports every op (also
+//! rejected ones) to the checker, and independent invariant checkers that recompute each
+//! invariant from the stored entries only.
+use crate::dump::{self, status_of, DiffOpts, Dump, Status};
+pub use crate::inv::E;
+use crate::ops::Node;
+use kanidmd_lib::prelude::*;
+use serde_json::Value as J;
+use std::collections::{BTreeMap, BTreeSet};
+use std::fmt::Debug;
+use std::future::Future;
+use std::pin::Pin;
+use vf_core::CaseLog;
+
+pub type OpFuture<'n> = Pin<Box<dyn Future<Output = Result<(), OperationError>> + 'n>>;
+
+/// What the checker sees after every op: the op, its result, and all stored entries afterwards.
+pub struct After<'a, O> {
+    pub step: usize,
+    pub op: &'a O,
+    pub res: &'a Result<(), OperationError>,
+    pub entries: &'a [E],
+    /// entries before the op (= after the previous op)
+    pub before: &'a [E],
+}
+
+impl<O> After<'_, O> {
+    pub fn committed(&self) -> bool {
+        self.res.is_ok()
+    }
+}
+
+#[derive(Default, Debug, Clone, Copy)]
+pub struct Stats {
+    pub committed: usize,
+    pub rejected: usize,
+}
+
+pub fn dump_of(entries: &[E]) -> Dump {
+    entries.iter().map(|e| (e.get_uuid(), dump::dump_entry(e))).collect()
+}
+
+pub async fn read_all(node: &Node) -> Vec<E> {
+    let mut r = node.qs.read().await.expect("read");
+    dump::all_entries(&mut r).expect("all entries")
+}
+
+/// Interpret `ops` on `node`. `apply` runs one op as its own transaction(s) (Err = refused, nothing
+/// committed). After every op `inv` is called. With `check_rejects`, a refused op must leave the
+/// canonical dump (all entries, ids, change state) unchanged.
+pub async fn run_hist<O: Debug>(
+    node: &mut Node,
+    ops: &[O],
+    log: &mut CaseLog,
+    check_rejects: bool,
+    mut apply: impl for<'n> FnMut(&'n mut Node, &'n O) -> OpFuture<'n>,
+    mut inv: impl FnMut(&After<'_, O>, &mut CaseLog),
+) -> Stats {
+    let mut stats = Stats::default();
+    let mut before = read_all(node).await;
+    for (i, op) in ops.iter().enumerate() {
+        let res = apply(node, op).await;
+        let entries = read_all(node).await;
+        match &res {
+            Ok(()) => stats.committed += 1,
+            Err(e) => {
+                stats.rejected += 1;
+                if check_rejects {
+                    let d = dump::diff(
+                        &dump_of(&before),
+                        &dump_of(&entries),
+                        &DiffOpts {
+                            skip_attrs: &[],
+                            ids: true,
+                            changestate: true,
+                        },
+                    );
+                    if !d.is_empty() {
+                        log.fail(
+                            "rejected operation left a trace",
+                            format!("step {i} {op:?} -> Err({e:?}) but the database changed: {:?}", &d[..d.len().min(6)]),
+                        );
+                    }
+                }
+            }
+        }
+        inv(
+            &After {
+                step: i,
+                op,
+                res: &res,
+                entries: &entries,
+                before: &before,
+            },
+            log,
+        );
+        before = entries;
+        if log.failed() {
+            break;
+        }
+    }
+    stats
+}
+
+/// `apply` for plain `ops::Op` histories.
+pub fn apply_base<'n>(node: &'n mut Node, op: &'n crate::ops::Op) -> OpFuture<'n> {
+    Box::pin(crate::ops::apply(node, op))
+}
+
+// ------------------------------------------------------------------------------------------------
+// stored schema (read from the attributetype / classtype ENTRIES, not from the in-memory Schema)
+
+#[derive(Debug, Clone, Default)]
+pub struct StoredAttr {
+    pub syntax: String,
+    pub multivalue: bool,
+    pub unique: bool,
+}
+
+#[derive(Debug, Clone, Default)]
+pub struct StoredClass {
+    pub must: BTreeSet<String>,
+    pub may: BTreeSet<String>,
+    pub supplements: BTreeSet<String>,
+    pub excludes: BTreeSet<String>,
+}
+
+#[derive(Debug, Clone, Default)]
+pub struct StoredSchema {
+    pub attrs: BTreeMap<String, StoredAttr>,
+    pub classes: BTreeMap<String, StoredClass>,
+    /// attributes that exist only for protocol mapping and may never be stored
+    pub phantom: BTreeSet<String>,
+}
+
+fn strs(e: &E, a: Attribute) -> BTreeSet<String> {
+    dump::proto_values(e, a).into_iter().collect()
+}
+
+pub fn stored_schema(entries: &[E]) -> StoredSchema {
+    let mut s = StoredSchema::default();
+    for e in entries.iter().filter(|e| status_of(e) == Status::Live) {
+        if e.has_class(&EntryClass::AttributeType) {
+            if let Some(name) = dump::proto_values(e, Attribute::AttributeName).into_iter().next() {
+                s.attrs.insert(
+                    name,
+                    StoredAttr {
+                        syntax: dump::proto_values(e, Attribute::Syntax).into_iter().next().unwrap_or_default(),
+                        multivalue: dump::proto_values(e, Attribute::MultiValue).first().map(|v| v == "true").unwrap_or(false),
+                        unique: dump::proto_values(e, Attribute::Unique).first().map(|v| v == "true").unwrap_or(false),
+                    },
+                );
+                if dump::proto_values(e, Attribute::Phantom).first().map(|v| v == "true").unwrap_or(false) {
+                    if let Some(n) = dump::proto_values(e, Attribute::AttributeName).into_iter().next() {
+                        s.phantom.insert(n);
+                    }
+                }
+            }
+        }
+        if e.has_class(&EntryClass::ClassType) {
+            if let Some(name) = dump::proto_values(e, Attribute::ClassName).into_iter().next() {
+                let mut must = strs(e, Attribute::SystemMust);
+                must.extend(strs(e, Attribute::Must));
+                let mut may = strs(e, Attribute::SystemMay);
+                may.extend(strs(e, Attribute::May));
+                let mut supplements = strs(e, Attribute::SystemSupplements);
+                supplements.extend(strs(e, Attribute::Supplements));
+                let mut excludes = strs(e, Attribute::SystemExcludes);
+                excludes.extend(strs(e, Attribute::Excludes));
+                s.classes.insert(
+                    name,
+                    StoredClass {
+                        must,
+                        may,
+                        supplements,
+                        excludes,
+                    },
+                );
+            }
+        }
+    }
+    s
+}
+
+// ------------------------------------------------------------------------------------------------
+// C16: no dangling references
+
+/// Syntax names (as the stored schema entries spell them) whose values carry entry references.
+pub const REF_SYNTAXES: [&str; 3] = ["REFERENCE_UUID", "OAUTH_SCOPE_MAP", "OAUTH_CLAIM_MAP"];
+
+fn collect_uuids(j: &J, out: &mut BTreeSet<Uuid>) {
+    match j {
+        J::String(s) => {
+            if s.len() == 36 {
+                if let Ok(u) = Uuid::parse_str(s) {
+                    out.insert(u);
+                }
+            }
+        }
+        J::Array(a) => a.iter().for_each(|x| collect_uuids(x, out)),
+        J::Object(m) => m.values().for_each(|x| collect_uuids(x, out)),
+        _ => {}
+    }
+}
+
+/// (attribute, referenced uuid) pairs of one entry, from its on-disk encoding, for every attribute
+/// the stored schema types as reference-bearing.
+pub fn references_of(e: &E, ref_attrs: &BTreeSet<String>) -> Vec<(String, Uuid)> {
+    if !ref_attrs.iter().any(|a| e.attribute_pres(Attribute::from(a.as_str()))) {
+        return Vec::new();
+    }
+    let d = dump::dump_entry(e);
+    let mut out = Vec::new();
+    for (a, vals) in &d.attrs {
+        if !ref_attrs.contains(a) {
+            continue;
+        }
+        let mut us = BTreeSet::new();
+        for v in vals {
+            if let Ok(j) = serde_json::from_str::<J>(v) {
+                collect_uuids(&j, &mut us);
+            }
+        }
+        out.extend(us.into_iter().map(|u| (a.clone(), u)));
+    }
+    out
+}
+
+pub fn ref_attrs_of(schema: &StoredSchema) -> BTreeSet<String> {
+    schema
+        .attrs
+        .iter()
+        .filter(|(_, a)| REF_SYNTAXES.contains(&a.syntax.as_str()))
+        .map(|(n, _)| n.clone())
+        .collect()
+}
+
+/// Reference-bearing attributes of the schema in force on `node`: every attribute whose syntax is
+/// ReferenceUuid / OauthScopeMap / OauthClaimMap. At the current domain level the schema lives in
+/// memory only (no attributetype entries are stored), so the attribute table of the loaded schema is
+/// read (not the refint plugin's own `get_reference_types` cache); attributetype ENTRIES, where a
+/// server stores them (older domain levels), are merged in.
+pub async fn ref_attrs_of_node(node: &Node, entries: &[E]) -> BTreeSet<String> {
+    use kanidmd_lib::schema::SchemaTransaction;
+    use kanidmd_lib::value::SyntaxType;
+    let r = node.qs.read().await.expect("read");
+    let mut out: BTreeSet<String> = r
+        .get_schema()
+        .get_attributes()
+        .values()
+        .filter(|a| matches!(a.syntax, SyntaxType::ReferenceUuid | SyntaxType::OauthScopeMap | SyntaxType::OauthClaimMap))
+        .map(|a| a.name.to_string())
+        .collect();
+    out.extend(ref_attrs_of(&stored_schema(entries)));
+    out
+}
+
+pub struct RefScan {
+    /// (holder, attribute, target, target status or None when absent)
+    pub dangling: Vec<(Uuid, String, Uuid, Option<Status>)>,
+    /// number of (holder, attr, target) triples held by live entries
+    pub live_refs: usize,
+    pub ref_attrs: BTreeSet<String>,
+}
+
+pub fn ref_scan(entries: &[E]) -> RefScan {
+    let schema = stored_schema(entries);
+    ref_scan_with(entries, ref_attrs_of(&schema))
+}
+
+pub fn ref_scan_with(entries: &[E], ref_attrs: BTreeSet<String>) -> RefScan {
+    let status: BTreeMap<Uuid, Status> = entries.iter().map(|e| (e.get_uuid(), status_of(e))).collect();
+    let mut dangling = Vec::new();
+    let mut live_refs = 0;
+    for e in entries.iter().filter(|e| status_of(e) == Status::Live) {
+        for (a, t) in references_of(e, &ref_attrs) {
+            live_refs += 1;
+            match status.get(&t) {
+                Some(Status::Live) => {}
+                other => dangling.push((e.get_uuid(), a, t, other.copied())),
+            }
+        }
+    }
+    RefScan {
+        dangling,
+        live_refs,
+        ref_attrs,
+    }
+}
+
+/// Live entries of `entries` holding a reference (any reference attribute except the derived
+/// memberof/directmemberof) to `target`.
+pub fn holders_of(entries: &[E], target: Uuid, ref_attrs: &BTreeSet<String>) -> BTreeSet<Uuid> {
+    entries
+        .iter()
+        .filter(|e| status_of(e) == Status::Live && e.get_uuid() != target)
+        .filter(|e| {
+            references_of(e, ref_attrs)
+                .iter()
+                .any(|(a, t)| *t == target && a != "memberof" && a != "directmemberof")
+        })
+        .map(|e| e.get_uuid())
+        .collect()
+}
+
+// ------------------------------------------------------------------------------------------------
+// C22: spn == name@domain
+
+/// The domain name as stored on the domain_info entry.
+pub fn stored_domain_name(entries: &[E]) -> Option<String> {
+    entries
+        .iter()
+        .find(|e| e.get_uuid() == UUID_DOMAIN_INFO)
+        .and_then(|e| dump::proto_values(e, Attribute::DomainName).into_iter().next())
+}
+
+pub const SIG_SPN: &str = "live account or group whose spn is not name@domain";
+/// Known finding: at the current domain level `name` is optional on groups; a group without a name
+/// keeps whatever spn value a caller writes (generate_spn returns the existing value verbatim).
+pub const SIG_SPN_NAMELESS: &str = "nameless group keeps a caller-chosen spn outside the current domain";
+
+/// Discrepancies of the spn invariant over live accounts and groups: (signature, detail).
+pub fn spn_violations(entries: &[E]) -> Vec<(&'static str, String)> {
+    let mut out = Vec::new();
+    let Some(domain) = stored_domain_name(entries) else {
+        return vec![(SIG_SPN, "domain_info entry has no domain_name".into())];
+    };
+    for e in entries.iter().filter(|e| status_of(e) == Status::Live) {
+        if !(e.has_class(&EntryClass::Account) || e.has_class(&EntryClass::Group)) {
+            continue;
+        }
+        let names = dump::proto_values(e, Attribute::Name);
+        let spns = dump::proto_values(e, Attribute::Spn);
+        if names.is_empty() {
+            // The schema of the current domain level makes `name` optional on groups (spn-only
+            // entries). The property's formula needs a name; what remains checkable is that there
+            // is exactly one spn and that it lives in the current domain.
+            if spns.len() != 1 {
+                out.push((SIG_SPN, format!("{} (nameless): spn {:?}, expected exactly one value", e.get_uuid(), spns)));
+            } else if !spns[0].ends_with(&format!("@{domain}")) {
+                out.push((SIG_SPN_NAMELESS, format!("{} (nameless): spn {:?}, current domain {domain:?}", e.get_uuid(), spns)));
+            }
+            continue;
+        }
+        if names.len() != 1 {
+            out.push((SIG_SPN, format!("{} has {} names", e.get_uuid(), names.len())));
+            continue;
+        }
+        let want = format!("{}@{}", names[0], domain);
+        if spns.len() != 1 || spns[0] != want {
+            out.push((SIG_SPN, format!("{}: spn {:?}, expected [{want:?}]", e.get_uuid(), spns)));
+        }
+    }
+    out
+}
+
+// ------------------------------------------------------------------------------------------------
+// C15: every stored live entry satisfies the schema
+
+/// The schema definitions as plain data, from the loaded schema's attribute/class tables. Used
+/// only where the server stores no schema entries (domain level >= 1.11); the validation logic
+/// below is the harness's own either way.
+pub async fn schema_from_memory(node: &Node) -> StoredSchema {
+    use kanidmd_lib::schema::SchemaTransaction;
+    let r = node.qs.read().await.expect("read");
+    let sch = r.get_schema();
+    let mut s = StoredSchema::default();
+    for (n, a) in sch.get_attributes() {
+        s.attrs.insert(
+            n.to_string(),
+            StoredAttr {
+                syntax: a.syntax.to_string(),
+                multivalue: a.multivalue,
+                unique: a.unique,
+            },
+        );
+        if a.phantom {
+            s.phantom.insert(n.to_string());
+        }
+    }
+    for (n, c) in sch.get_classes() {
+        let set = |a: &Vec<Attribute>, b: &Vec<Attribute>| a.iter().chain(b.iter()).map(|x| x.to_string()).collect::<BTreeSet<String>>();
+        let sset = |a: &Vec<AttrString>, b: &Vec<AttrString>| a.iter().chain(b.iter()).map(|x| x.to_string()).collect::<BTreeSet<String>>();
+        s.classes.insert(
+            n.to_string(),
+            StoredClass {
+                must: set(&c.systemmust, &c.must),
+                may: set(&c.systemmay, &c.may),
+                supplements: sset(&c.systemsupplements, &c.supplements),
+                excludes: sset(&c.systemexcludes, &c.excludes),
+            },
+        );
+    }
+    s
+}
+
+pub const SIG_SCHEMA: &str = "stored live entry violates the schema";
+
+/// Own, syntax-specific validity predicates for the syntaxes the generators produce (others: the
+/// syntax tag of the stored value set is compared only).
+fn value_ok(syntax: &str, proto: &str) -> bool {
+    match syntax {
+        "UTF8STRING_INAME" => !proto.is_empty() && proto == proto.to_lowercase() && !proto.contains('@') && Uuid::parse_str(proto).is_err(),
+        "UTF8STRING_INSENSITIVE" => proto == proto.to_lowercase(),
+        "BOOLEAN" => proto == "true" || proto == "false",
+        "UINT32" => proto.parse::<u32>().is_ok(),
+        "UUID" | "REFERENCE_UUID" => true,
+        "EMAIL_ADDRESS" => proto.contains('@'),
+        "SECURITY_PRINCIPAL_NAME" => proto.matches('@').count() >= 1,
+        _ => true,
+    }
+}
+
+/// Schema discrepancies of all live entries (recycled, tombstone and conflict entries are exempt).
+pub fn schema_violations(entries: &[E], schema: &StoredSchema) -> Vec<String> {
+    let mut out = Vec::new();
+    for e in entries.iter().filter(|e| status_of(e) == Status::Live) {
+        let u = e.get_uuid();
+        let classes: BTreeSet<String> = dump::proto_values(e, Attribute::Class).into_iter().collect();
+        if classes.is_empty() {
+            out.push(format!("{u}: no class"));
+            continue;
+        }
+        let mut must: BTreeSet<&String> = BTreeSet::new();
+        let mut may: BTreeSet<&String> = BTreeSet::new();
+        let mut supplements: BTreeSet<&String> = BTreeSet::new();
+        let mut unknown = false;
+        for c in &classes {
+            match schema.classes.get(c) {
+                None => {
+                    out.push(format!("{u}: class {c} is not defined"));
+                    unknown = true;
+                }
+                Some(def) => {
+                    must.extend(def.must.iter());
+                    may.extend(def.may.iter());
+                    supplements.extend(def.supplements.iter());
+                    for x in &def.excludes {
+                        if classes.contains(x) {
+                            out.push(format!("{u}: class {c} excludes {x}, both present"));
+                        }
+                    }
+                }
+            }
+        }
+        if unknown {
+            continue;
+        }
+        if !supplements.is_empty() && !supplements.iter().any(|s| classes.contains(*s)) {
+            out.push(format!("{u}: none of the supplemented classes {supplements:?} present (classes {classes:?})"));
+        }
+        for m in &must {
+            if !e.attribute_pres(Attribute::from(m.as_str())) {
+                out.push(format!("{u}: required attribute {m} missing (classes {classes:?})"));
+            }
+        }
+        let extensible = classes.contains("extensibleobject");
+        for a in e.get_ava_names() {
+            let Some(def) = schema.attrs.get(a) else {
+                out.push(format!("{u}: attribute {a} is not defined"));
+                continue;
+            };
+            if extensible {
+                if schema.phantom.contains(a) {
+                    out.push(format!("{u}: phantom attribute {a} stored"));
+                }
+            } else if !(must.iter().any(|m| m.as_str() == a) || may.iter().any(|m| m.as_str() == a)) {
+                out.push(format!("{u}: attribute {a} not allowed by classes {classes:?}"));
+            }
+            let Some(vs) = e.get_ava_set(Attribute::from(a)) else { continue };
+            // (built-in classtype entries store empty multi-valued systemmay/systemmust/... sets;
+            // the property speaks about single-valued attributes only)
+            if !def.multivalue && vs.len() != 1 {
+                out.push(format!("{u}: single-valued attribute {a} has {} values", vs.len()));
+            }
+            let tag = vs.syntax().to_string();
+            if tag != def.syntax {
+                out.push(format!("{u}: attribute {a} holds {tag} values, schema says {}", def.syntax));
+            } else {
+                for p in vs.to_proto_string_clone_iter() {
+                    if !value_ok(&def.syntax, &p) {
+                        out.push(format!("{u}: attribute {a} value {p:?} is not a valid {}", def.syntax));
+                    }
+                }
+            }
+        }
+    }
+    out
+}
+
+/// Replication resolves equal timestamps by comparing the (random) server uuids. To keep replicated
+/// histories replayable, make timestamps of different replicas never collide: replica i only
+/// writes at seconds congruent to i modulo the number of replicas. Call before every step.
+pub fn untie_clocks(cl: &mut crate::repl::Cluster) {
+    let n = cl.nodes.len() as u64;
+    for (i, node) in cl.nodes.iter_mut().enumerate() {
+        while node.clock % n != i as u64 {
+            node.clock += 1;
+        }
+    }
+}
